@@ -158,6 +158,28 @@ def shared_temporary(main, obs):
 
 def run_case(case):
     obs = {"counters": {}, "viols": [], "sets": {}}
+    if case["kind"] == "nextid":
+        # loops that are closed out of textual order (NEXT of an outer variable, the 'IF .. THEN NEXT I: GOTO' idiom): legal
+        # Color BASIC whose BASIC09 form may well be ill-formed (C07 lists that) - but whatever is emitted, every named NEXT
+        # names the variable the source names, in the same order
+        import re
+
+        text = case["text"]
+        obs["key"] = "nextid|" + text
+        conv = harness.convert(text, initialize_vars=case.get("init", False))
+        if not conv["ok"]:
+            obs["nontrivial"] = False
+            obs["counters"]["refused" if conv["documented"] else "internal_error"] = 1
+            return obs
+        want = [canon(v).lower() for grp in re.findall(r"NEXT ?([A-Z][A-Z0-9]*(?: ?, ?[A-Z][A-Z0-9]*)*)", text) for v in re.split(r" ?, ?", grp)]
+        body = conv["out"][conv["out"].find("play.dot"):]
+        got = [m.lower() for m in re.findall(r"(?i)\bNEXT ([A-Za-z][A-Za-z0-9_]*)", body)]
+        obs["counters"]["identifiers_checked"] = len(got)
+        obs["counters"]["next_sequences_checked"] = 1
+        if got != want:
+            obs["viols"].append({"sig": "C09/for-next/next-names-another-variable", "detail": {"source": text, "source_next": want, "emitted_next": got,
+                                                                                               "emitted": "\n".join(conv["out"].split("\n")[-8:])}})
+        return obs
     if case["kind"] == "readtmp":
         # READ through the empty-item filter parks every item in a string temporary until its filter call has run; calls
         # hoisted out of a target's subscript need temporaries of their own
@@ -435,6 +457,12 @@ def cases(tier, seed):
             k += 1
             for data in (",1,2", "1,2,3"):
                 yield {"kind": "readtmp", "text": "10 DIM A(9)\n20 DATA %s,4\n30 READ %s\n" % (data, shape.replace("@", sub)), "init": k % 2 == 0}
+    for t in ("10 FOR CO=1 TO 2:FOR J=1 TO 2:NEXT CO\n", "10 FOR K=1 TO 2\n20 FOR I=1 TO 3\n30 IF I=2 THEN NEXT I:GOTO 50\n40 NEXT I\n50 NEXT K\n",
+              "10 FOR A=1 TO 2:FOR B=1 TO 2:IF B=1 THEN 30\n20 NEXT B,A\n30 NEXT A\n", "10 FOR XA=1 TO 2:FOR XB=1 TO 2:FOR XC=1 TO 2:NEXT XB:NEXT XA\n",
+              "10 FOR I=1 TO 2:FOR J=1 TO 2:NEXT J,I\n", "10 FOR I=1 TO 3\n20 IF I=1 THEN NEXT I\n30 PRINT I\n40 NEXT I\n",
+              "10 FOR LONG=1 TO 2:FOR LO2=3 TO 4:NEXT LONG\n"):
+        for init in (False, True):
+            yield {"kind": "nextid", "text": t, "init": init}
     # statements that need more than nine temporaries of one type (two-digit numbering)
     names12 = ["A", "B", "C", "D", "E", "F", "G", "H", "I", "J", "K", "L", "M", "N"]
     for n_ in (10, 11, 12, 14):
